@@ -484,6 +484,9 @@ func c12Events(c *c12Case, r *c12Rendered, obs []c12Obs, cfg c12Cfg, mode string
 	if cfg.api == "layout" {
 		minor = 4 // ChunkerConfig.MinHeadingLevel = 3: deeper headings are content
 	}
+	if strings.HasPrefix(cfg.api, "pdf") {
+		minor = 0 // headings detected by heuristics: the weak path rule of the contract
+	}
 	// "case" lets a rejected segment be re-run (driver mode tracecase); the trace
 	// specification does not read it
 	rc := map[string]interface{}{"doc": c.Doc, "pages": c.Pages, "lnorm": c.Lnorm, "only_cfg": cfg.name, "only_mode": mode}
@@ -588,6 +591,23 @@ func c12Compare(c *c12Case, r *c12Rendered, obs []c12Obs, api string) *c12Fail {
 		for el := range elset {
 			if c12EqInts(o.Path, c.Els[el-1].Path) || (api == "layout" && c12EqInts(o.Path, c.Els[el-1].Mpath)) {
 				okPath = true
+			}
+		}
+		if strings.HasPrefix(api, "pdf") {
+			// headings are detected by layout heuristics: which lines are reported is not
+			// asserted, only that a reported one is a heading of the document that does
+			// not come after the chunk's content
+			last := 0
+			for el := range elset {
+				if el > last {
+					last = el
+				}
+			}
+			okPath = true
+			for _, h := range o.Path {
+				if h < 1 || h > len(c.Doc) || c.Doc[h-1].K != "H" || h > last {
+					okPath = false
+				}
 			}
 		}
 		if !okPath {
@@ -873,6 +893,8 @@ func c12(mode, in, out string) error {
 	switch mode {
 	case "tracecase":
 		return runCases(in, out, c12TraceCase)
+	case "pdf":
+		return runCases(in, out, c12PdfCase)
 	case "replay":
 		return runCases(in, out, c12ReplayCase)
 	case "record":
